@@ -148,6 +148,20 @@ func checkC02(ctx *core.Ctx, rep *core.Report) {
 		}
 		rep.Sample(3, map[string]interface{}{"seed": st.Seed.Name, "path": st.Path, "bytes": len(st.DER)})
 	})
+	// revocation lists over the entry-list product (common.go): CRL linting has no recovery net at all
+	maxLen := 2
+	if !ctx.Quick() {
+		maxLen = 3
+	}
+	n := crlEntryStates(ctx, all, maxLen, func(st *xstate.State) {
+		rep.Inc("states")
+		rep.Inc("transitions")
+		rep.Inc("validated")
+		for _, b := range c02Oracle(st.Obj) {
+			rep.Violate(b[0], b[1]+" [CRL template "+st.Seed.Name+" "+strings.Join(st.Path, ",")+"]", st.Replay())
+		}
+	})
+	rep.Add("crl_entry_list_states", int64(n))
 }
 
 func replayC02(rp map[string]interface{}) (string, error) {
